@@ -172,7 +172,7 @@ func (x *Exec) callFn(f *frame, ins ssa.Instruction, fn *ssa.Function, args, bin
 	}
 	if len(x.Cfg.NoResizeCall) > 0 && (name == "(*"+xsyncPath+".Map).resize" || name == "(*"+xsyncPath+".MapOf).resize") {
 		// excluded at the call: the execution never asks for this kind of resize
-		if h, ok := args[2].(*Term); ok && h.IsConst() && x.Cfg.NoResizeCall[int(h.Val)] {
+		if h, ok := args[2].(*Term); ok && h.IsConst() && x.Cfg.NoResizeCall[int(h.Val)] && !strings.Contains(baseName(f.fn), ".VxH_") {
 			x.Assume(g, x.U.False, fmt.Sprintf("this instance excludes executions that request a resize with hint %d (0=grow,1=shrink,2=clear)", h.Val))
 			return nil
 		}
@@ -192,7 +192,9 @@ func (x *Exec) callFn(f *frame, ins ssa.Instruction, fn *ssa.Function, args, bin
 		}
 	}
 	if pruneCalls[name] && fn.Signature.Results().Len() == 0 {
-		if !x.feasible(x.act(g)) {
+		// path guard only: in a thread the callee's visible operations must be
+		// counted in every round, whether or not the call starts inside the window
+		if !x.feasible(g) {
 			x.PrunedCalls++
 			return nil
 		}
